@@ -3,10 +3,11 @@
    Inducing points = training cells: K_xu = K_uu = K (sigma = 0, so jitter' = jitter).
    Spectral-norm statements are given in Loewner-order / trace form (MathComp 1.15 has no
    spectral theorem for symmetric real matrices).
-   NOT proved here: "p = n  ==>  L_p L_p^T = K + jI" needs the eigen contract to state that nothing is
-   discarded (truncation_full_rank_partial: the gap equals the discarded part Vd Sd Vd^T; the harness checks p = n). *)
+   The eigen contract (thm/FactorThm.v) is claimed only for p <= rank W and states that kept and discarded
+   vectors together are n orthonormal vectors, so a full-rank request discards nothing
+   (C09_full_rank_request_exact). *)
 From mathcomp Require Import all_ssreflect all_fingroup all_algebra.
-From MellonV Require Import MatOps MxInst MxPsd MatGen CondThm AffineThm FactorThm CovThm CrossThm.
+From MellonV Require Import MatOps MxInst MxPsd MxChol MatGen CondThm AffineThm FactorThm CovThm CrossThm.
 Set Implicit Arguments.
 Unset Strict Implicit.
 Import Order.TTheory GRing.Theory Num.Theory.
@@ -67,22 +68,42 @@ Proof. exact: cov_coincide. Qed.
 (* truncation: (K + jI) - L_p L_p^T = Vd Sd Vd^T (discarded pairs), psd; its trace is the discarded mass
    and x^T(.)x <= (sum discarded) x^T x when the discarded vectors are orthonormal *)
 Theorem C09_truncation_error n p (K : 'M[F]_n) (j : F) (rank : nat) :
-  sym K -> psd K -> 0 < j ->
+  sym K -> psd K -> 0 < j -> (p <= n)%N ->
   let W := K + (Num.max (0 ^+ 2) j)%:M in
   let L := full_decomposition_low_rank p K rank 0 j in
   exists q, exists sd : 'cV[F]_q, exists Vd : 'M[F]_(n, q),
-    [/\ W - L *m L^T = Vd *m diagv sd *m Vd^T, (forall i, 0 <= sd i 0), psd (W - L *m L^T)
-      & Vd^T *m Vd = 1%:M -> \tr (W - L *m L^T) = \sum_i sd i 0].
+    [/\ (q + p = n)%N, W - L *m L^T = Vd *m diagv sd *m Vd^T, (forall i, 0 <= sd i 0), psd (W - L *m L^T)
+      & \tr (W - L *m L^T) = \sum_i sd i 0].
 Proof.
-move=> sK pK j0 W L.
-have [_ [q [sd [Vd [h1 h2 h3]]]]] := nystroem_LLt cholF qrQ qrR p 0 rank sK pK j0 eig_ok.
-by exists q, sd, Vd; split=> // o; rewrite h1 gap_trace.
+move=> sK pK j0 pn W L.
+have [_ [q [sd [Vd [h0 h1 h2 h3 h4]]]]] := nystroem_LLt cholF qrQ qrR 0 rank sK pK j0 eig_ok pn.
+by exists q, sd, Vd; split=> //; rewrite h1 gap_trace.
+Qed.
+
+(* with rank reduction switched off (all n pairs requested) the factor reproduces the un-reduced matrix *)
+Theorem C09_full_rank_request_exact n (K : 'M[F]_n) (j : F) (rank : nat) :
+  sym K -> psd K -> 0 < j ->
+  let L := full_decomposition_low_rank n K rank 0 j in
+  L *m L^T = K + j%:M /\ L *m L^T = full_rank K 0 j *m (full_rank K 0 j)^T.
+Proof.
+move=> sK pK j0 L.
+have e : Num.max (0 ^+ 2) j = j by rewrite expr0n /=; apply/max_idPr/ltW.
+have h : L *m L^T = K + j%:M.
+  by rewrite /L nystroem_full_rank_exact // e.
+by split=> //; rewrite h full_LLt // e.
 Qed.
 
 End C09.
+
+(* non-vacuity of the Cholesky contract assumed above: lib/MxChol.v constructs the factor of every
+   symmetric positive definite matrix over any real closed field *)
+Theorem C09_chol_contract_satisfiable (F : rcfType) : chol_contract (@cholm F).
+Proof. exact: chol_contract_cholm. Qed.
 
 Print Assumptions C09_sparse_vs_full_LLt.
 Print Assumptions C09_chol_latent_vs_full_pred.
 Print Assumptions C09_dtc_vs_full_weights.
 Print Assumptions C09_cov_coincide.
 Print Assumptions C09_truncation_error.
+Print Assumptions C09_full_rank_request_exact.
+Print Assumptions C09_chol_contract_satisfiable.
